@@ -38,7 +38,12 @@ FMT_MAX = {0: 10 ** 19, 1: 10 ** 19, 2: 1 << 60, 3: 1 << 60, 4: 1 << 63, 5: 1 <<
 A36 = "0123456789abcdefghijklmnopqrstuvwxyz"
 A64 = "ABCDEFGHIJKLMNOPQRSTUVWXYZabcdefghijklmnopqrstuvwxyz0123456789"
 INVALID = [" ", "!", "@", "[", "`", "{", ".", ":", "/", "é", "€", "\U0001F600", "\x00",
-           "٠", "０", "~", "\t", "*", "#"]
+           "٠", "０", "~", "\t", "*", "#",
+           # non-ASCII characters whose low byte (or low 7 bits) is an ASCII digit, letter, `_`, `+`,
+           # `/`, `=`: a classifier that truncates the code point would accept them
+           "\u0131", "\u0139", "\u0141", "\u015a", "\u0161", "\u017a", "\u015f", "\u0661",
+           "\u012b", "\u012f", "\u013d", "\u0230", "\u0341", "\u2030", "\u2161", "\uff10",
+           "\u00b1", "\u00c1", "\u00e1", "\u00df", "\U00010030", "\U0001F431"]
 WIDTHS_FMT = [0, 1, 7, 80]
 
 
